@@ -135,6 +135,11 @@ func c18GenPool(r interface{ Intn(int) int }, aged bool) c18PoolScn {
 	sc := c18PoolScn{Limit: 1 + r.Intn(4)}
 	tight := r.Intn(2) == 0
 	nclients, percl := 2+r.Intn(5), 1+r.Intn(4)
+	if aged {
+		// clock advances are concurrent with everything, which multiplies the states the
+		// checker has to explore: keep these histories small (<= ~35 operations)
+		nclients, percl = 2+r.Intn(3), 1+r.Intn(3)
+	}
 	if r.Intn(5) == 0 {
 		nclients, percl = 1, 4+r.Intn(8) // sequential histories: the checker is exact
 	}
@@ -149,7 +154,7 @@ func c18GenPool(r interface{ Intn(int) int }, aged bool) c18PoolScn {
 	}
 	if aged {
 		sc.MaxAge = int64(2 + r.Intn(20))
-		n := 1 + total/2
+		n := 1 + total/3
 		for j := 0; j < n; j++ {
 			sc.Clock = append(sc.Clock, c18ClockOp{Pre: c18PreDelay(r, tight), D: c18AgeStep(r, sc.MaxAge)})
 		}
@@ -321,7 +326,11 @@ func c18RunPool(m *vk.M, idx int, sc c18PoolScn) bool {
 	}
 	ndestroy := len(dlog.ops)
 	ncreate := int(atomic.LoadInt64(&nextID)) + 1
-	if !violated && atomic.LoadInt32(&overflow) == 0 && len(ops) <= 70 {
+	maxOps := 70
+	if sc.MaxAge > 0 {
+		maxOps = 45
+	}
+	if !violated && atomic.LoadInt32(&overflow) == 0 && len(ops) <= maxOps {
 		c18Linearizable(m, "C18:pool:not-linearizable", desc, c18PoolModel(sc.Limit, sc.MaxAge*c18Ms), ops)
 	}
 	ngets := 0
